@@ -10,7 +10,7 @@
 use std::sync::{Arc, Mutex};
 
 use explorer::thread::{run_threads, ThreadCtx, ThreadEnd};
-use explorer::{dfs, json, DfsCfg, Report};
+use explorer::{dfs_par, json, DfsCfg, Report};
 use tokio::sync::mpsc;
 
 #[allow(dead_code)]
@@ -30,9 +30,9 @@ struct Scenario {
 fn scenarios(thorough: bool) -> Vec<Scenario> {
     let mut v = vec![
         Scenario { name: "one-submitter", submitters: vec![vec![7]] },
+        Scenario { name: "resubmit-same-id", submitters: vec![vec![7, 7]] },
         Scenario { name: "two-submitters-same-id", submitters: vec![vec![7], vec![7]] },
         Scenario { name: "two-submitters-different-ids", submitters: vec![vec![7], vec![8]] },
-        Scenario { name: "resubmit-same-id", submitters: vec![vec![7, 7]] },
     ];
     if thorough {
         v.push(Scenario { name: "same-id-and-resubmit", submitters: vec![vec![7, 7], vec![7]] });
@@ -45,22 +45,31 @@ pub fn run(mut rep: Report) -> i32 {
     let thorough = rep.thorough();
     let bound = if thorough { 3 } else { 2 };
     rep.rule = format!("scenarios of 1-3 submitter threads (same id, different ids, re-submission after completion) plus the pipeline thread on the real TaskTracker; every interleaving of their tokio synchronisation operations with at most {bound} preemptions; non-trivial = execution with at least one preemption in which every submitter returned");
+    // executions are independent (own scheduler, own threads, thread-local hooks): explore them on
+    // several workers; the set of executions explored does not depend on the worker count
+    let threads = rep.args.threads.clamp(1, 12);
     let start = std::time::Instant::now();
     let budget = std::time::Duration::from_secs(if thorough { 1200 } else { 45 });
-    for sc in scenarios(thorough) {
+    // iterative context bounding, breadth first: every scenario with 0 preemptions, then every
+    // scenario with <= 1, ...; a scenario stops at the first bound with a violation so the
+    // reported counterexample has the fewest preemptions
+    let scs = scenarios(thorough);
+    let mut fired: std::collections::BTreeSet<&'static str> = Default::default();
+    for b in 0..=bound {
+        for sc in &scs {
+        if fired.contains(sc.name) {
+            continue;
+        }
         let total: usize = sc.submitters.iter().map(|s| s.len()).sum();
-        // iterative context bounding: 0, 1, .. preemptions; stop at the first bound with a
-        // violation so the reported counterexample has the fewest preemptions
-        for b in 0..=bound {
         let before = rep.violation_count();
         let remaining = budget.saturating_sub(start.elapsed());
         if remaining.is_zero() {
             rep.not_exhaustive(&format!("{}: wall budget used up before preemption bound {b}", sc.name));
-            break;
+            continue;
         }
         let mut outcomes: Vec<(Vec<u32>, explorer::thread::ThreadRun, Vec<Option<Vec<ResultT>>>, usize)> = vec![];
-        let stats = dfs(
-            &DfsCfg { max_dev: b, wall: remaining, ..Default::default() },
+        let stats = dfs_par(
+            &DfsCfg { max_dev: b, wall: remaining, threads, ..Default::default() },
             |ch| {
                 let tracker: TaskTracker<ResultT, u32> = TaskTracker::new();
                 let (tx, mut rx) = mpsc::unbounded_channel::<u32>();
@@ -153,7 +162,7 @@ pub fn run(mut rep: Report) -> i32 {
             }
         }
         if rep.violation_count() > before {
-            break;
+            fired.insert(sc.name);
         }
         }
     }
